@@ -359,18 +359,98 @@ theorem SameLiquid.labMatch {R : RLab} {L L' : Labware} (h : SameLiquid L L') (h
 theorem SameLiquid.labAmt {R : RLab} {L L' : Labware} (h : SameLiquid L L') (ha : LabAmt R L) :
     LabAmt R L' := labAmt_congr ha h.vols h.comp
 
-/-- The world-side invariant the amount lemmas need: limits and a well-formed composition table. -/
-def Good (w : World) : Prop := ∀ L ∈ w.labs, C02.LabValid L ∧ CompValid L
+/-! ### Normalisation of the fractions -/
 
-theorem SameLiquid.good {L L' : Labware} (h : SameLiquid L L') (hg : C02.LabValid L ∧ CompValid L) :
-    C02.LabValid L' ∧ CompValid L' := by
-  obtain ⟨hv, hc⟩ := hg
+/-- In every real well the fractions sum to 1, unless the well is empty and never held anything. -/
+def Mixed (L : Labware) : Prop :=
+  ∀ i, i < L.vols.length → fracSum L i = 1 ∨ (fracSum L i = 0 ∧ L.vol i = 0)
+
+theorem colSum_setFrac_ne (comp : List (String × List Rat)) (n : Nat) (k : String) (i j : Nat) (f : Rat)
+    (hji : j ≠ i) : Mix.colSum (Labware.setFrac comp n k i f) j = Mix.colSum comp j := by
+  induction comp with
+  | nil =>
+    simp only [Labware.setFrac, Mix.colSum_cons, Mix.colSum_nil]
+    rw [getD_set_ne _ _ _ _ _ hji, Mix.getD_replicate_zero]
+    norm_num
+  | cons p rest ih =>
+    obtain ⟨a, arr⟩ := p
+    simp only [Labware.setFrac]
+    by_cases hk : a = k
+    · rw [if_pos hk, Mix.colSum_cons, Mix.colSum_cons, getD_set_ne _ _ _ _ _ hji]
+    · rw [if_neg hk, Mix.colSum_cons, Mix.colSum_cons, ih]
+
+theorem colSum_setAll_ne (comp : List (String × List Rat)) (n i j : Nat) (newc : Comp) (hji : j ≠ i) :
+    Mix.colSum (Mix.setAll comp n i newc) j = Mix.colSum comp j := by
+  induction newc generalizing comp with
+  | nil => rfl
+  | cons q rest ih =>
+    obtain ⟨a, x⟩ := q
+    rw [Mix.setAll_cons, ih, colSum_setFrac_ne _ _ _ _ _ _ hji]
+
+theorem mixed_removeStep {L L' : Labware} {i : Nat} {v : Rat} (hM : Mixed L) (hv : 0 ≤ v)
+    (hmin : 0 ≤ L.minV) (h : L.removeStep i v = .ok L') : Mixed L' := by
+  obtain ⟨hge, hvols, _, _, _, _, _, hcomp⟩ := Labware.removeStep_fields h
+  intro j hj
+  have hj' : j < L.vols.length := by rw [hvols, List.length_set] at hj; exact hj
+  have hfs : fracSum L' j = fracSum L j := by unfold fracSum; rw [hcomp]
+  rw [hfs]
+  rcases hM j hj' with h1 | ⟨h0, hv0⟩
+  · exact Or.inl h1
+  · refine Or.inr ⟨h0, ?_⟩
+    by_cases hji : j = i
+    · subst hji
+      unfold Labware.vol at hv0 ⊢
+      rw [hvols, getD_set_self _ _ _ _ hj']
+      have : ¬ (0 - v < L.minV) := by
+        have := hge; unfold Labware.vol at this; rw [hv0] at this; exact this
+      have h2 : L.minV ≤ 0 - v := not_lt.mp this
+      have hvj : L.vol j = 0 := hv0
+      have hveq : v = 0 := by linarith
+      rw [hvj, hveq]; norm_num
+    · unfold Labware.vol at hv0 ⊢
+      rw [hvols, getD_set_ne _ _ _ _ _ hji]; exact hv0
+
+theorem mixed_addStep {L L' : Labware} {i : Nat} {v : Rat} {cB : Comp} (hM : Mixed L)
+    (hL : CompValid L) (hi : i < L.vols.length) (hv : 0 < v) (hvol : 0 ≤ L.vol i)
+    (hB : Mix.total cB = 1) (hBn : ∀ p ∈ cB, 0 ≤ p.2)
+    (h : L.addStep i v (some cB) = .ok L') : Mixed L' := by
+  obtain ⟨hvols, hcomp⟩ := Mix.addStep_some h
+  intro j hj
+  have hj' : j < L.vols.length := by rw [hvols, List.length_set] at hj; exact hj
+  by_cases hji : j = i
+  · subst hji
+    left
+    exact addStep_fracSum L L' j v cB hL hj' (le_of_lt hv) hvol hB hBn
+      (fun hpos => by
+        rcases hM j hj' with h1 | ⟨_, h0⟩
+        · exact h1
+        · rw [h0] at hpos; exact absurd hpos (lt_irrefl _))
+      (by linarith) h
+  · have hfs : fracSum L' j = fracSum L j := by
+      rw [fracSum_eq, fracSum_eq, hcomp, colSum_setAll_ne _ _ _ _ _ hji]
+    have hvj : L'.vol j = L.vol j := by
+      unfold Labware.vol; rw [hvols, getD_set_ne _ _ _ _ _ hji]
+    rw [hfs, hvj]
+    exact hM j hj'
+
+/-- The world-side invariant the amount lemmas need: limits, a well-formed composition table, and
+    normalised fractions. -/
+def Good (w : World) : Prop := ∀ L ∈ w.labs, C02.LabValid L ∧ CompValid L ∧ Mixed L
+
+theorem SameLiquid.good {L L' : Labware} (h : SameLiquid L L')
+    (hg : C02.LabValid L ∧ CompValid L ∧ Mixed L) : C02.LabValid L' ∧ CompValid L' ∧ Mixed L' := by
+  obtain ⟨hv, hc, hm⟩ := hg
   refine ⟨⟨by rw [h.minV]; exact hv.min_nonneg, by rw [h.minV, h.maxV]; exact hv.min_lt_max,
     by rw [h.vols, h.maxV]; exact hv.range⟩, ⟨by rw [h.comp]; exact hc.keys_nodup,
-    by rw [h.comp, h.vols]; exact hc.lens, by rw [h.comp]; exact hc.nonneg⟩⟩
+    by rw [h.comp, h.vols]; exact hc.lens, by rw [h.comp]; exact hc.nonneg⟩, ?_⟩
+  intro j hj
+  have hfs : fracSum L' j = fracSum L j := by unfold fracSum; rw [h.comp]
+  have hvj : L'.vol j = L.vol j := by unfold Labware.vol; rw [h.vols]
+  rw [hfs, hvj]
+  exact hm j (by rw [h.vols] at hj; exact hj)
 
 theorem good_set {w : World} (hG : Good w) (l : Nat) {L' : Labware}
-    (h : C02.LabValid L' ∧ CompValid L') : Good (w.setLab l L') := by
+    (h : C02.LabValid L' ∧ CompValid L' ∧ Mixed L') : Good (w.setLab l L') := by
   intro L hL
   unfold World.setLab at hL
   rcases List.mem_or_eq_of_mem_set hL with h' | h'
@@ -378,7 +458,7 @@ theorem good_set {w : World} (hG : Good w) (l : Nat) {L' : Labware}
   · subst h'; exact h
 
 theorem good_get {w : World} (hG : Good w) {l : Nat} {L : Labware} (hL : w.labs[l]? = some L) :
-    C02.LabValid L ∧ CompValid L := hG L (List.mem_of_getElem? hL)
+    C02.LabValid L ∧ CompValid L ∧ Mixed L := hG L (List.mem_of_getElem? hL)
 
 /-! ### The scalar blocks of a transfer pair -/
 
@@ -441,13 +521,14 @@ theorem asp1 {dev : Device} {labs₀ : List Labware} {I} (hwf : WFI I) (cfg : Cf
     (hrun : (RState.ofLabs labs₀).run dev w.recs = some st) (hM : Match st w) (hA : AmtOK st w)
     (hok : (w.exec (compileAspirate cfg S src (.scalar s) (.scalar v) none kw)).2 = none) :
     ∃ i S0 S1 st' w', w.exec (compileAspirate cfg S src (.scalar s) (.scalar v) none kw) = (w', none)
-      ∧ S.geom.resolveFlat s = some i ∧ w.labs[src]? = some S0 ∧ S0.removeStep i v = .ok S1
+      ∧ S.geom.resolveFlat s = some i ∧ w.labs[src]? = some S0 ∧ i < S0.vols.length
+      ∧ S0.removeStep i v = .ok S1
       ∧ w'.labs = w.labs.set src (S1.log none) ∧ w'.carry = w.carry ∧ w'.cfg = w.cfg
       ∧ (RState.ofLabs labs₀).run dev w'.recs = some st' ∧ Match st' w' ∧ AmtOK st' w' ∧ Good w'
       ∧ (st'.tip.map (·.1)).Nodup ∧ ∀ k, amtOf st'.tip k = v * S0.frac i k := by
   rw [compileAspirate_scalar cfg S src s v kw hv] at hok ⊢
   obtain ⟨S0, hS0, hn0, hg0⟩ := lab_of_info hI hIs
-  obtain ⟨hS0v, hS0c⟩ := good_get hG hS0
+  obtain ⟨hS0v, hS0c, hS0m⟩ := good_get hG hS0
   cases hres : S.geom.resolveFlat s with
   | none =>
     exfalso
@@ -489,10 +570,12 @@ theorem asp1 {dev : Device} {labs₀ : List Labware} {I} (hwf : WFI I) (cfg : Cf
         obtain ⟨R2, hR2, hRA'⟩ := forall₂_getElem? hA' hS1
         rw [hR'] at hR2; cases hR2
         have hsl := sameLiquid_log S1 none
-        have hS1good : C02.LabValid S1 ∧ CompValid S1 :=
+        have hS1good : C02.LabValid S1 ∧ CompValid S1 ∧ Mixed S1 :=
           ⟨C02.removeStep_valid S0 S1 i v (le_of_lt hv) hS0v hstep,
-           (compValid_removeStep S0 S1 i v hS0c hstep).1⟩
-        refine ⟨i, S0, S1, st', _, rfl, rfl, hS0, hstep, ?_, rfl, rfl, ?_, ?_, ?_, ?_, hnd, ?_⟩
+           (compValid_removeStep S0 S1 i v hS0c hstep).1,
+           mixed_removeStep hS0m (le_of_lt hv) hS0v.min_nonneg hstep⟩
+        obtain ⟨_, _, _, hlen0⟩ := wellOf_pos (geomOK_of_mem hI hwf hS0) hp' hr'
+        refine ⟨i, S0, S1, st', _, rfl, rfl, hS0, hlen0, hstep, ?_, rfl, rfl, ?_, ?_, ?_, ?_, hnd, ?_⟩
         · simp [World.setLab]
         · simp only
           have hrecs : ((w.setLab src S1).setLab src (S1.log none)).recs = w.recs := rfl
@@ -510,14 +593,15 @@ theorem disp1 {dev : Device} {labs₀ : List Labware} {I} (hwf : WFI I) (cfg : C
     (hId : ∃ n, I[dst]? = some (D.name, D.geom, n)) (d : String) (v : Rat) (kw : KW) (hv : 0 < v)
     (w : World) (hI : info w = I) (hG : Good w) (st : RState)
     (hrun : (RState.ofLabs labs₀).run dev w.recs = some st) (hM : Match st w) (hA : AmtOK st w)
-    (hcnn : ∀ p ∈ w.carry, 0 ≤ p.2) (htip : ∀ k, Mix.csum st.tip k = v * compOf w.carry k)
+    (hcnn : ∀ p ∈ w.carry, 0 ≤ p.2) (hctot : Mix.total w.carry = 1)
+    (htip : ∀ k, Mix.csum st.tip k = v * compOf w.carry k)
     (hok : (w.exec (compileDispense cfg D dst (.scalar d) (.scalar v) none none kw true)).2 = none) :
     ∃ st' w', w.exec (compileDispense cfg D dst (.scalar d) (.scalar v) none none kw true) = (w', none)
       ∧ w'.cfg = w.cfg
       ∧ (RState.ofLabs labs₀).run dev w'.recs = some st' ∧ Match st' w' ∧ AmtOK st' w' ∧ Good w' := by
   rw [compileDispense_scalar cfg D dst d v kw hv] at hok ⊢
   obtain ⟨D0, hD0, hn0, hg0⟩ := lab_of_info hI hId
-  obtain ⟨hD0v, hD0c⟩ := good_get hG hD0
+  obtain ⟨hD0v, hD0c, hD0m⟩ := good_get hG hD0
   cases hres : D.geom.resolveFlat d with
   | none =>
     exfalso
@@ -554,6 +638,7 @@ theorem disp1 {dev : Device} {labs₀ : List Labware} {I} (hwf : WFI I) (cfg : C
         have hr' : D0.geom.resolveFlat d = some j := by rw [hg0]; exact hres
         have hstep' : D0.addStep j f.vol (some w.carry) = .ok D1 := by rw [hfv]; exact hstep
         have hvol : 0 ≤ D0.vol j := vol_nonneg D0 j (fun x hx => (hD0v.range x hx).1)
+        obtain ⟨_, _, _, hlenD⟩ := wellOf_pos (geomOK_of_mem hI hwf hD0) hp' hr'
         obtain ⟨st', hint, hM', hA'⟩ := interp_disp_amt hM hA hI hwf hD0 hp' hr'
           (by rw [hfl, hn0]) hfp hstep' hD0c (by rw [hfv]; exact le_of_lt hv) hvol
           (by intro k; rw [hfv]; exact htip k)
@@ -561,10 +646,11 @@ theorem disp1 {dev : Device} {labs₀ : List Labware} {I} (hwf : WFI I) (cfg : C
         obtain ⟨R2, hR2, hRA'⟩ := forall₂_getElem? hA' hD1
         rw [hR'] at hR2; cases hR2
         have hsl := sameLiquid_log D1 none
-        have hD1good : C02.LabValid D1 ∧ CompValid D1 :=
+        have hD1good : C02.LabValid D1 ∧ CompValid D1 ∧ Mixed D1 :=
           ⟨C02.addStep_valid D0 D1 j v (some w.carry) (le_of_lt hv) hD0v hstep,
            addStep_compValid D0 D1 j v (some w.carry) hD0c (le_of_lt hv) hvol
-             (by intro cB hcB; cases hcB; exact hcnn) hstep⟩
+             (by intro cB hcB; cases hcB; exact hcnn) hstep,
+           mixed_addStep hD0m hD0c hlenD hv hvol hctot hcnn hstep⟩
         refine ⟨st', _, rfl, rfl, ?_, ?_, ?_, ?_⟩
         · simp only
           have hrecs : ((w.setLab dst D1).setLab dst (D1.log none)).recs = w.recs := rfl
@@ -713,7 +799,7 @@ theorem ablock_pair {dev : Device} {labs₀ : List Labware} {I} (hwf : WFI I) (c
   obtain ⟨st, hrun, hM, hA⟩ := hinv
   rw [List.append_assoc] at hok ⊢
   obtain ⟨h1, h2⟩ := exec_append_ok hok
-  obtain ⟨i, S0, S1, st1, w1, hx1, hres, hS0, hstep, hlabs1, hcarry1, _, hrun1, hM1, hA1, hG1, hnd, htip⟩ :=
+  obtain ⟨i, S0, S1, st1, w1, hx1, hres, hS0, hi0, hstep, hlabs1, hcarry1, _, hrun1, hM1, hA1, hG1, hnd, htip⟩ :=
     asp1 hwf cfg hdev S src hIs s v kw hv w hI hG st hrun hM hA h1
   rw [← h2] at hok ⊢
   rw [hx1] at hok ⊢
@@ -733,14 +819,24 @@ theorem ablock_pair {dev : Device} {labs₀ : List Labware} {I} (hwf : WFI I) (c
   simp only [hres, exceptMicros] at hok ⊢
   rw [World.exec_cons_ok _ hm, World.exec_nil] at hok ⊢
   simp only at hok ⊢
-  obtain ⟨_, hS0c⟩ := good_get hG hS0
+  obtain ⟨hS0v, hS0c, hS0m⟩ := good_get hG hS0
   have hS1c : CompValid S1 := (compValid_removeStep S0 S1 i v hS0c hstep).1
+  have htot : Mix.total (S1.wellComp i) = 1 := by
+    rw [Mix.wellComp_eq, Mix.total_wc _ _ hS1c.nonneg, (Labware.removeStep_fields hstep).2.2.2.2.2.2.2,
+      ← fracSum_eq]
+    rcases hS0m i hi0 with h1 | ⟨_, h0⟩
+    · exact h1
+    · exfalso
+      have hge := (Labware.removeStep_fields hstep).1
+      rw [h0] at hge
+      have := hS0v.min_nonneg
+      apply hge; linarith
   have hfrac : ∀ k, compOf (S1.wellComp i) k = S0.frac i k := by
     intro k
     rw [(wellComp_spec S1 i hS1c k).1, (removeStep_frac S0 S1 i v hstep).2 i k]
   obtain ⟨st2, w2, hx2, _, hrun2, hM2, hA2, hG2⟩ :=
     disp1 hwf cfg hdev D dst hId d v kw hv { w1 with carry := S1.wellComp i } hI1 hG1 st1 hrun1 hM1 hA1
-      (fun p hp => le_of_lt (Mix.wc_pos _ _ p hp))
+      (fun p hp => le_of_lt (Mix.wc_pos _ _ p hp)) htot
       (fun k => by
         rw [csum_eq_amtOf _ _ hnd, htip k]
         show v * S0.frac i k = v * compOf (S1.wellComp i) k
@@ -895,7 +991,7 @@ theorem amtOK_ofLabs (w : World) (hG : Good w) : AmtOK (RState.ofLabs w.labs) w 
       intro h
       exact List.Forall₂.cons (labAmt_ofLabs L (h L List.mem_cons_self))
         (ih fun L' hL' => h L' (List.mem_cons_of_mem _ hL'))
-  exact this w.labs fun L hL => (hG L hL).2
+  exact this w.labs fun L hL => (hG L hL).2.1
 
 end Amt
 end Robotools
